@@ -196,6 +196,20 @@ impl Encoder for Codec {
     type Error = EncodeError;
 
     fn encodev(&self, item: Self::Item, dst: &mut BytePages) -> Result<(), EncodeError> {
+        let len = dst.len();
+        let result = self.encode_item(item, dst);
+        if result.is_err() && dst.len() != len {
+            // failed encode must not leave partially encoded frame in the buffer
+            let mut valid = dst.split_to(len);
+            dst.clear();
+            valid.move_to(dst);
+        }
+        result
+    }
+}
+
+impl Codec {
+    fn encode_item(&self, item: Encoded, dst: &mut BytePages) -> Result<(), EncodeError> {
         match item {
             Encoded::Packet(pkt) => {
                 let content_size = encode::get_encoded_size(&pkt);
